@@ -150,6 +150,28 @@ impl Monitor for Mon {
                 ensure!(ok, "C11:down-record-vanished", "Down record {} disappeared in {} (not its forget-timer)", old.id(), rec.call.kind());
             }
         }
+        // "final until forgotten": whatever made a record Down (timeout, gossip, apply_many with or without
+        // broadcasting, a Down identity superseding another) also scheduled its forgetting, exactly once
+        for new in &rec.after.state {
+            if new.state() != State::Down {
+                continue;
+            }
+            let was_down_already = matches!(rec.before.record_of(new.id()), Some(m) if m.state() == State::Down);
+            if was_down_already {
+                continue;
+            }
+            let want = Duration::from_millis(runner.inst.cfg.remove_down_ms as u64);
+            let n = timers(&rec.evs).filter(|(t, d)| matches!(t, Timer::RemoveDown(x) if x == new.id()) && **d == want).count();
+            ensure!(
+                n == 1,
+                "C11:down-without-forget-timer",
+                "{} became Down in {} but {} forget-timers (RemoveDown after {} ms) were scheduled for it: it would never be forgotten (or forgotten at the wrong time)",
+                new.id(),
+                rec.call.kind(),
+                n,
+                runner.inst.cfg.remove_down_ms
+            );
+        }
         // forget-timer: removes exactly that Down identity, nothing else
         if let Call::Timer(Timer::RemoveDown(x)) = &rec.call {
             ensure!(rec.res == Res::Ok && rec.evs.is_empty(), "C11:forget-timer-effects", "RemoveDown({x}) returned {:?} with effects {:?}", rec.res, rec.evs);
@@ -524,7 +546,7 @@ pub fn run(ctx: &Ctx, report: &mut Report) -> EvidenceMeta {
     ctx.run_part(&part_random(), report);
     EvidenceMeta {
         level: "exploration",
-        rule: "(1) complete case table: 17 intervening events between raising a suspicion (through a real failed probe) and delivering its timeout (nothing, header/update refutation at same/higher incarnation, other member's Down gossip, newer identity via header/Down/Suspect update, forget then same/older identity rejoins, change_identity, self Down, idle-then-active, leave) x notify_down x bystander present x duplicate delivery x renewable x target incarnation {0,3,MAX-1} x codec x 4 RNG seeds, every cell reached through real API calls; (1b) the epoch-changing events again after 1..511 earlier identity changes so that the 8-bit timer token takes the values around its wrap; (2) proptest random histories in which issued timeouts and forget-timers fire at random positions, repeatedly. Oracle: the timeout takes effect iff token current, record shows the same identity at the same incarnation and is active; then Down + MemberDown once + RemoveDown after remove_down_after + Down update queued + TurnUndead iff notify_down + Idle iff last member; otherwise no effect at all (no event, identical views). Down never becomes active under the same identity; records vanish only by their own forget-timer. Non-trivial: every table cell (distinct by outcome), random histories where a timeout fired after an intervening change of the same address."
+        rule: "(1) complete case table: 17 intervening events between raising a suspicion (through a real failed probe) and delivering its timeout (nothing, header/update refutation at same/higher incarnation, other member's Down gossip, newer identity via header/Down/Suspect update, forget then same/older identity rejoins, change_identity, self Down, idle-then-active, leave) x notify_down x bystander present x duplicate delivery x renewable x target incarnation {0,3,MAX-1} x codec x 4 RNG seeds, every cell reached through real API calls; (1b) the epoch-changing events again after 1..511 earlier identity changes so that the 8-bit timer token takes the values around its wrap; (2) proptest random histories in which issued timeouts and forget-timers fire at random positions, repeatedly. Oracle: the timeout takes effect iff token current, record shows the same identity at the same incarnation and is active; then Down + MemberDown once + RemoveDown after remove_down_after + Down update queued + TurnUndead iff notify_down + Idle iff last member; otherwise no effect at all (no event, identical views). Down never becomes active under the same identity; every call after which an identity is newly recorded Down (timeout, gossip, apply_many with or without broadcasting, a Down identity superseding another) scheduled exactly one RemoveDown for it after remove_down_after; records vanish only by their own forget-timer. Non-trivial: every table cell (distinct by outcome), random histories where a timeout fired after an intervening change of the same address."
             .into(),
         assumptions: vec![
             "'same incarnation as when the suspicion was raised' is read as: record incarnation equals the timer's and the record is active (a member forgotten and re-registered at the same incarnation is indistinguishable)".into(),
